@@ -12,6 +12,8 @@ Accept(t) == LET r == TLog[t] IN
         Clause(t, "find-exact", r.finds[f].mask = FindIds(r.tasks, r.opts, r.finds[f].key, r.finds[f].v))
    /\ Clause(t, "roundtrip-equal-both-directions", r.eq12 /\ r.eq21)
    /\ Clause(t, "roundtrip-tasks", r.tasks2 = r.tasks)
+   /\ Clause(t, "file-roundtrip-equal-both-directions", r.feq12 /\ r.feq21)
+   /\ Clause(t, "file-roundtrip-tasks", r.tasks3 = r.tasks)
 ASSUME \A t \in 1..Len(TLog) : Accept(t) \/ TRUE
 ASSUME PrintT(<<"VALIDATED", Len(TLog)>>)
 =============================================================================
